@@ -20,7 +20,7 @@ KINDS = ['panel', 'panel', 'assembly', 'bay', 'shell']
 
 def plan(tier):
     n = 160 if tier == 'quick' else 4000
-    return dict(n_cases=n, shards=16, min_nontrivial=n // 3,
+    return dict(sanitize={'extensions': ['compmech.panel.models.clt_bardell_field', 'compmech.conecyl.clpt.clpt_commons_bc1', 'compmech.conecyl.clpt.clpt_commons_bc3', 'compmech.conecyl.clpt.clpt_commons_bc4', 'compmech.conecyl.fsdt.fsdt_commons_bc1'], 'n_cases': 80}, n_cases=n, shards=16, min_nontrivial=n // 3,
                 min_tags={'kind:panel': n // 5, 'kind:assembly': n // 10, 'kind:bay': n // 10, 'kind:shell': n // 10},
                 watchdog_s=2400 if tier == 'quick' else 14000,
                 rule='object definitions (panels of the flat / cylindrical models with loads, forces, aerodynamic data; assemblies with penalty '
